@@ -408,6 +408,7 @@ static std::string run_r(const Case& c, Report& rep, bool* nontrivial) {
 struct WBase {
   std::string name;
   bool has_skip = true, unbounded = false, unchecked = false, via_prepare = false, cex = false;
+  bool sink_limited = false, dead = false;   // StreamWriter over a sink that refuses output beyond cap: any error, driven up to its first failure
   size_t cap = 0;
   Bytes model; bool used = false;
   virtual ~WBase() {}
@@ -462,12 +463,35 @@ static Bytes fd_bytes(int fd) {
 template <typename WI> static void buffer_getter(WI* p, std::shared_ptr<uint8_t> mem, size_t cap) {
   p->bytes = [p, mem, cap]() { size_t n = (size_t)p->size(); return Bytes(mem.get(), mem.get() + std::min(n, cap)); };
 }
+// An ostream whose buffer accepts exactly `cap` bytes and refuses the rest (a full device / fixed transmit buffer).
+struct CapBuf : std::streambuf {
+  Bytes out; size_t cap;
+  explicit CapBuf(size_t c) : cap(c) {}
+  int_type overflow(int_type ch) override {
+    if (traits_type::eq_int_type(ch, traits_type::eof())) return traits_type::not_eof(ch);
+    if (out.size() >= cap) return traits_type::eof();
+    out.push_back((uint8_t)traits_type::to_char_type(ch));
+    return ch;
+  }
+  std::streamsize xsputn(const char* p, std::streamsize n) override {
+    size_t k = std::min<size_t>(cap - out.size(), (size_t)n);
+    out.insert(out.end(), p, p + k);
+    return (std::streamsize)k;
+  }
+};
+struct CapStream : std::ostream {
+  CapBuf buf;
+  explicit CapStream(size_t c) : std::ostream(nullptr), buf(c) { rdbuf(&buf); }
+};
+using CapStreamWriter = nop::StreamWriter<CapStream>;
+
 static void build_writers(const Case& c, WSet& s) {
   const size_t C = c.len;
   { auto m = exact_buffer(C); auto* p = w_add<nop::BufferWriter, true, false>(s, "BufferWriter", new nop::BufferWriter(m.get(), C), C, false); p->unchecked = true; buffer_getter(p, m, C); }
   { auto m = exact_buffer(C); auto* p = w_add<nop::PedanticBufferWriter, true, false>(s, "PedanticBufferWriter", new nop::PedanticBufferWriter(m.get(), C), C, false); p->via_prepare = true; buffer_getter(p, m, C); }
   { auto m = exact_buffer(C); auto* p = w_add<nop::ConstexprBufferWriter, true, true>(s, "ConstexprBufferWriter", new nop::ConstexprBufferWriter(m.get(), C), C, false); p->via_prepare = true; buffer_getter(p, m, C); }
   { auto* p = w_add<SStreamWriter, true, false>(s, "StreamWriter<stringstream>", new SStreamWriter(), 0, true); p->bytes = [p]() { std::string t = p->w->stream().str(); return Bytes(t.begin(), t.end()); }; }
+  { auto* p = w_add<CapStreamWriter, true, false>(s, "StreamWriter<fixed-capacity sink>", new CapStreamWriter(C), C, false); p->sink_limited = true; p->bytes = [p]() { return p->w->stream().buf.out; }; }
   if (c.fd) { int fd = memfd_create("vkw", 0); if (fd < 0) { perror("memfd_create"); abort(); }
     auto* p = w_add<nop::FdWriter, false, false>(s, "FdWriter", new nop::FdWriter(fd), 0, true); p->bytes = [fd]() { return fd_bytes(fd); }; }
   { auto m = exact_buffer(C); auto u = std::make_shared<nop::BufferWriter>(m.get(), C);
@@ -522,6 +546,8 @@ static std::string run_w(const Case& c, Report& rep, bool* nontrivial) {
       const uint64_t size = w.model.size();
       const uint64_t rem = w.unbounded ? ~0ull : w.cap - size;
       const bool wraps = n > ~0ull - size;   // size + n overflows 2^64
+      if (w.dead) continue;
+      if (o.kind == K_PREP && w.sink_limited) { w.used = true; (void)w.prepare((size_t)n); continue; }   // the stream cannot know: only required to return
       if (o.kind == K_PREP) {
         if (g_excl_prepare_overflow && !w.unbounded && wraps) { rep.exclude("prepare-overflow: Prepare(n) with size()+n >= 2^64 not driven"); continue; }
         w.used = true;
@@ -556,6 +582,7 @@ static std::string run_w(const Case& c, Report& rep, bool* nontrivial) {
         w.model.insert(w.model.end(), payload.begin(), payload.end());
       } else {
         if (s == 0) { err = failmsg("accepts-overflowing-call", who, "call for " + std::to_string(nbytes) + " bytes succeeded at size " + std::to_string(size) + " of capacity " + std::to_string(w.cap), k, &o); break; }
+        if (w.sink_limited) { w.dead = true; g_stats.kind_first_failure[w.name]++; continue; }   // any error; partial output of the refused call is allowed
         if (s != kWLR) { err = failmsg("wrong-status", who, std::string("failed with ") + err_name(s) + ", WriteLimitReached is documented", k, &o); break; }
       }
       long rs = w.size();
@@ -566,6 +593,10 @@ static std::string run_w(const Case& c, Report& rep, bool* nontrivial) {
     rep.current_detail = "collecting produced bytes";
     for (auto& wp : set.v) {
       Bytes b = wp->bytes();
+      if (wp->sink_limited) {
+        if (b.size() < wp->model.size() || b.size() > wp->cap || !std::equal(wp->model.begin(), wp->model.end(), b.begin())) { err = failmsg("wrong-bytes", wp->name.c_str(), "sink holds " + hex(b) + ", the calls reported as successful wrote " + hex(wp->model), c.ops.size(), nullptr); break; }
+        continue;
+      }
       if (b != wp->model) { err = failmsg("wrong-bytes", wp->name.c_str(), "produced " + hex(b) + ", model " + hex(wp->model), c.ops.size(), nullptr); break; }
     }
   }
